@@ -1,5 +1,6 @@
 # C02 - fatal error iff not well-formed (lexical layer)
-CLAIMS = {'names_1_0 / names_1_1': 'XMLChar1_0/1_1::isValidNCName/isValidName/isValidQName on every (pointer,count) buffer of 1..3 units in an exactly sized object: verdict = Name/NCName/QName productions, nothing read beyond count',
+CLAIMS = {'charref': 'XMLScanner::scanCharRef on every scripted input of N units, XML 1.0/1.1: accepted silently iff well-formed CharRef denoting a legal character (value as a mathematical integer, any number of digits), exact character / surrogate pair returned',
+ 'names_1_0 / names_1_1': 'XMLChar1_0/1_1::isValidNCName/isValidName/isValidQName on every (pointer,count) buffer of 1..3 units in an exactly sized object: verdict = Name/NCName/QName productions, nothing read beyond count',
  
  'chartables_1_0 / chartables_1_1': 'for every 16-bit code unit and every unit pair, XMLChar1_0/XMLChar1_1 accessors (real tables lowered from source, as exact decision trees) '
      'equal the productions [2] Char, [2a] RestrictedChar, [3] S, [4] NameStartChar, [4a] NameChar and their NCName variants',
@@ -15,6 +16,8 @@ HARNESSES = [
       const_tables=[T10, T11], unwind=2),
  dict(name='names_1_0', entry='harness_names', srcs=['C02/names.cpp'], tus=['util/XMLChar.cpp', 'util/XMLString.cpp'], defs={'all': {'VERSION': 10}}, const_tables=[T10, T11], unwind=6),
  dict(name='names_1_1', entry='harness_names', srcs=['C02/names.cpp'], tus=['util/XMLChar.cpp', 'util/XMLString.cpp'], defs={'all': dict({'VERSION': 11}, **({'ONLYFN': int(__import__('os').environ['VX_ONLYFN'])} if __import__('os').environ.get('VX_ONLYFN') else {}))}, const_tables=[T10, T11], unwind=6),
+ dict(name='charref', entry='harness_charref', srcs=['C02/charref.cpp', 'C02/crstubs.cpp', 'C06/nsstubs.cpp'], tus=['internal/XMLScanner.cpp', 'util/XMLChar.cpp', 'util/XMLString.cpp'],
+      const_tables=[T10, T11], cuts=['_ZN11xercesc_4_010XMLScanner9emitErrorENS_7XMLErrs5CodesE', '_ZN11xercesc_4_010XMLScanner9emitErrorENS_7XMLErrs5CodesEPKDsS4_S4_S4_'], defs={'quick': {'N': 11}, 'thorough': {'N': 12}}, unwind='N+3', timeout={'quick': 900, 'thorough': 2400}, mem_gb=16),
  dict(name='severity', entry='harness_severity', srcs=['C02/severity.cpp'], tus=[], unwind=2),
 ]
 LEVEL_TEXT = ('Bounded model checking of the lexical layer every well-formedness verdict rests on: the XML 1.0/1.1 character-class tables (lowered from the real source, '
